@@ -113,7 +113,7 @@ def run(ctx):
     # ---- B. operator values -------------------------------------------------------------------
     ops = {"N": fqe.get_number_operator(), "Sz": fqe.get_sz_operator(), "S2": fqe.get_s2_operator(),
            "T": fqe.get_time_reversal_operator()}
-    ncases = 60 if quick else 600
+    ncases = 60 if quick else 2400
     for case in range(ncases):
         norb = rng.choice([1, 2, 2, 3] if quick else [1, 2, 3, 3, 4])
         wk = rng.choice(["single", "multi", "spinbroken", "full-alpha"])
